@@ -35,6 +35,23 @@ def chk(pid, engine, text, note, design_ref, technique):
     }
 
 CHECKS = [
+    chk("C06", "sim-image",
+        "Seeded search over simulated executions: generated pictures are saved by the real Image.cc onto a simulated disk (fopencookie) or produced as "
+        "foreign P5/P6/P7/BMP variants by independent encoders; the simulator then decides what the disk durably holds (torn write / every or drawn prefix "
+        "lengths), read errors, chunked delivery and disk-full during save. Oracles: the generator's pixel array, independent PNG/BMP/PPM decoders (own CRC-32), "
+        "'throws or decodes identically' under faults, ASan/UBSan, and an exact malloc/free balance of the code under test for leaks. Small files are torn at "
+        "every prefix length (enumeration, reported as such in evidence); otherwise sampling, not proof.",
+        "Trusted: vsim/vfs.cc cookie layer, glibc stdio, zlib inflate for the PNG check, the reference encoders/decoders in engines/sim_image.cc. "
+        "Wide (>8 bit) foreign samples use host byte order like phosg's own writer. Hostile headers / bit flips are outside C06.",
+        "DESIGN.md 4.1", "deterministic simulation with fault injection (simulated disk: torn writes, truncation, EIO, chunking, full disk; independent-decoder oracle)"),
+    chk("C20", "sim-rand",
+        "SCOPED to the entropy clause of C20 (random_int in [lo,hi]; random_data fills exactly n bytes). The real Random.cc runs against a simulated "
+        "/dev/urandom whose byte stream (adversarial constants or seeded), read sizes and EIO/EINTR are decided by the seed; every run is executed twice "
+        "(stream X, then its complement) on fresh threads so that each output byte is attributable to device data. gcd/reduce_fraction/log2i/Vector/Matrix4 "
+        "are pure functions, not simulation targets, and are NOT decided by this check.",
+        "Trusted: the simulated device in vsim/vfs.cc, std::thread for per-run isolation of the thread_local buffer. Only the random_data/random_int clause "
+        "is covered; a change that breaks only the pure clauses of C20 is not detected.",
+        "DESIGN.md 4.5", "deterministic simulation with fault injection (simulated entropy device, two-pass complement oracle) - scoped to random_data/random_int"),
     chk("C14", "sim-fs",
         "Seeded search over simulated executions: the real Filesystem.cc runs against a simulated kernel (descriptors, pipe-like streams, "
         "regular files, directory trees, poll readiness, a concurrent deleter) that decides every read/write size, EINTR/EIO/ENOSPC, readdir "
@@ -57,6 +74,8 @@ def main():
             "add_only": True,
         },
         "engines": [
+            {"name": "sim-image", "path": "engines/sim_image.cc", "serves_properties": ["C06"], "kind_free_text": "deterministic simulation: real Image.cc over a simulated disk (fopencookie), torn writes/truncation/EIO/full disk, independent decoders"},
+            {"name": "sim-rand", "path": "engines/sim_rand.cc", "serves_properties": ["C20"], "kind_free_text": "deterministic simulation: real Random.cc over a simulated /dev/urandom (scoped clause only)"},
             {"name": "sim-fs", "path": "engines/sim_fs.cc", "serves_properties": ["C14"], "kind_free_text": "deterministic simulation: real Filesystem.cc over a simulated kernel (link-time --wrap + fopencookie), seeded fault injection"},
         ],
         "checks": CHECKS,
